@@ -104,7 +104,9 @@ CHECKS = {
         "start, deals or a public key late to one node, every message twice, a Responses message re-delivered, lost "
         "acknowledgement + retry, late duplicates of a completed stage, transient send failure) judged on the joint outcome "
         "(all finish, same key, share on polynomial, t shares recover).",
-   note=TB + "partial: liveness ('every member finishes') is established by the networked runs, not by a theorem; timing "
+   note=TB + "partial: liveness ('every member finishes') is proved at the level of the session functions for every order of "
+        "the deals and of the approvals, each delivered once (C04_everything_delivered_finishes); that re-deliveries are filtered "
+        "before those functions, and the goroutine / retry layer that feeds them, are established by the networked runs; timing "
         "(500 ms retry, deadlines) is not modelled; a send that fails outright is retried by a goroutine that dies with the "
         "sender's session, so for that schedule only safety is judged (premise 'delivered at least once' not met).",
    technique="Coq proof (homomorphism of commitments and shares over the sum) + scripted and networked differential runs",
@@ -410,6 +412,7 @@ CHECKS = {
 
 # additions made after the second round of seeded changes (appended to the descriptions above)
 EXTRA_TEXT = {
+ "C04": "Liveness (Proofs/DkgLive.v): for any group of n >= 2 honest members, any threshold 2 <= t <= n, any polynomials, member i's session - the deals of all other members in ANY order, then k's approval of j's deal for all dealers j and responders k other than i and j in ANY order - finishes with a key share (C04_everything_delivered_finishes, by an invariant over the verifier table: every recorded deal is the dealer's, every response list has one approval per responder seen so far; C04_liveness_premises_hold instantiates the premises).",
  "C01": "The stage-level runs also judge liveness: valid shares of a threshold of distinct members among the junk must yield a report.",
  "C02": "Groups of 65..72 and 257..266 members are included, with a high-index member's share repeated under other encodings (trailing byte, coordinate + p) at random positions.",
  "C03": "Groups of 65..72 members with t-1 signers and a high-index share repeated under other encodings are included.",
